@@ -46,7 +46,9 @@ Paths(e) ==
     [] e = "kids.items"               -> {<<T("kids", TRUE), I(TRUE)>>}
     [] e = "d.items"                  -> {<<T("d", TRUE), I(TRUE)>>}
     [] e = "child"                    -> {<<T("child", TRUE)>>}
-Exprs == {"d.items", "kids:items.value", "value", "child.value", "child:value", "child.child.value", "kids.items.value", "kids:items:value",
+    [] e = "csnap"                    -> {<<T("csnap", TRUE)>>}       \* observed properties of the root (C12)
+    [] e = "chv"                      -> {<<T("chv", TRUE)>>}
+Exprs == {"csnap", "chv", "d.items", "kids:items.value", "value", "child.value", "child:value", "child.child.value", "kids.items.value", "kids:items:value",
           "child.kids.items.value", "[child,kids.items].value", "kids.items.child.value", "d.items.value",
           "child.d:items.value", "+tracked.value", "+tracked:kids.items", "+ltracked:items.value", "child.*", "kids.items",
           "child"}
@@ -102,7 +104,7 @@ Mutate(h, m) ==
     [] m.t = "kids" -> [h EXCEPT !.kids[m.x] = MutKids(h, m).post]
     [] m.t = "dassign" -> [h EXCEPT !.d[m.x] = D!PutAll(<<>>, D!VPairs("coerce", "id", m.ps))]
     [] m.t = "d" -> [h EXCEPT !.d[m.x] = MutD(h, m).post]
-    [] m.t = "value" -> h
+    [] m.t = "value" -> [h EXCEPT !.vals[m.x] = @ + 1]
 \* the observable a mutation hits, and whether it is a real change (must notify) / may notify
 Hit(m) == CASE m.t = "child" -> <<"trait", m.x, "child">> [] m.t = "kidsassign" -> <<"trait", m.x, "kids">>
             [] m.t = "kids" -> <<"l", m.x>> [] m.t = "dassign" -> <<"trait", m.x, "d">> [] m.t = "d" -> <<"m", m.x>>
@@ -117,8 +119,19 @@ IsChange(h, m) ==
 \* container operations that change nothing may still emit an identity event (C05/C06 leave it open)
 MayNotify(h, m) == IsChange(h, m) \/ (m.t \in {"kids", "d"} /\ (IF m.t = "kids" THEN MutKids(h, m) ELSE MutD(h, m)).excs = {""})
 
-\* expected number of calls of a handler registered for e, during mutation m from heap h
+\* ---- observed properties (C12): name -> dependency expression; value computed from the heap
+Props == {"csnap", "chv"}
+DepOf(p) == IF p = "csnap" THEN "kids.items.value" ELSE "child.value"
+ValOf(h, x) == IF x = NoVal THEN -1 ELSE h.vals[x]
+PropValue(h, p) == IF p = "csnap" THEN [i \in 1..Len(h.kids[Root]) |-> <<h.kids[Root][i], ValOf(h, h.kids[Root][i])>>]
+                   ELSE IF h.child[Root] = NoneO THEN <<>> ELSE <<h.child[Root], ValOf(h, h.child[Root])>>
+\* a mutation is relevant to a property iff it hits an observable its dependency expression covers with notify
+Relevant(h, p, m) == Hit(m) \in Notifying(h, DepOf(p))
+
+\* expected call of a handler registered for e, during mutation m from heap h
 Called(h, e, m) == Hit(m) \in Notifying(h, e)
+\* ... and through a property: the dependency change is announced as a change of the property itself
+CalledViaProp(h, e, m) == e \in Props /\ Relevant(h, e, m)
 
 \* ---- known finding F8 (found by TLC on ObserveImpl.tla): a link of an object that lies on a cycle of the
 \* heap is mutated - the maintainers' removal walk from the old value re-reads the object's new link
